@@ -2,7 +2,7 @@
 (* Trace validation for C15 (DESIGN.md 2.2).  trace.ndjson holds one SELF-CONTAINED event per     *)
 (* command executed against the real code by harness/cmd/h-disco:                                *)
 (*   [cmd, pre, post, res]   pre/post = projected config-entry table of the real state.Store      *)
-(*   write/delete: res = [class, dump_changed]   class ok | reject | casfail | invalid            *)
+(*   write/delete: res = [class, dump_changed]   class ok | reject | casfail | invalid | hung     *)
 (*   compile:      res = [hung, runs, gruns, class, proto, g, dump_changed]                       *)
 (*                 g = the graph returned by the REAL discoverychain.Compile (ids, edges, targets) *)
 (* Each event is judged on its own: DiscoChain!Apply / DiscoChain!Chain are evaluated on the      *)
@@ -36,6 +36,8 @@ StoreJudge(e, pre, post) ==
       E2   == Bodies(rD.new)
       direct == BrokenIn(E, E2, DirectScope(E, E2, kind, name), DefaultCtx)
   IN
+  IF impl = "hung" THEN {"Terminates"}          \* the validation inside the store transaction did not return
+  ELSE
      F("valid", (impl = "invalid") = (rD.class = "invalid"))
   \cup F("cas", impl = "invalid" \/ rD.class = "invalid" \/ (impl = "casfail") = (rD.class = "casfail"))
   \* StoredSetsAlwaysCompile, judged at the step that breaks it and split by cause
